@@ -252,7 +252,9 @@ def run_shard(spec, seed, tier, active):
                              engine="acctworld")
         nt, kinds = _kinds(w)
         cnt = {"forced_flushes": w.forced, "cases_with_forced_flush": int(w.forced > 0),
-               "exits_with_injected_io_error": w.events.get("faulted_exit", 0)}
+               "exits_with_injected_io_error": w.events.get("faulted_exit", 0),
+               "after_failed_exit.read_only_sessions": w.events.get("aftermath_read_session", 0),
+               "after_failed_exit.write_through_probes": w.events.get("aftermath_write_probe", 0)}
         sample = {"class": ci.name, "initial": docs, "steps": w.log[:20]} if nt else None
         acc.case([h64(ci.name, kinds)] if nt else (), sample, cnt)
 
